@@ -352,11 +352,21 @@ func evalClassDeclareStmt(vm *r.VM, node *syntax.ClassDeclareStmt) error {
 		return err
 	}
 
-	// then add symbol to export value
-	if err := module.AddExportValue(className.GetLiteral(), classRef); err != nil {
-		return err
+	// then add symbol to export value (a type defined inside a method body is not
+	// an export of the module)
+	if isModuleTopLevel(vm) {
+		if err := module.AddExportValue(className.GetLiteral(), classRef); err != nil {
+			return err
+		}
 	}
 	return nil
+}
+
+// isModuleTopLevel - whether the statements being executed belong to the program of a
+// module itself (script call frame) rather than to the body of one of its methods
+func isModuleTopLevel(vm *r.VM) bool {
+	callFrame := vm.GetCurrentCallFrame()
+	return callFrame != nil && callFrame.IsScriptCallFrame()
 }
 
 // 如何XX？
@@ -375,8 +385,9 @@ func evalFunctionDeclareStmt(vm *r.VM, node *syntax.FunctionDeclareStmt) error {
 		return err
 	}
 
-	// then add symbol to export value
-	if module != nil {
+	// then add symbol to export value (a method defined inside a method body is not
+	// an export of the module)
+	if module != nil && isModuleTopLevel(vm) {
 		if err := module.AddExportValue(vtag.GetLiteral(), fn); err != nil {
 			return err
 		}
